@@ -185,6 +185,10 @@ func Bound(name string, quick, thorough int) int {
 
 func Thorough() bool { return cur.Tier == "thorough" }
 
+// IsConst reports whether x is a concrete value in the symbolic engine (always true natively);
+// harness support code may use it to pick a cheaper, equivalent computation.
+func IsConst(x int64) bool { return true }
+
 // Symbolic reports whether the harness runs inside the symbolic engine.
 func Symbolic() bool { return false }
 
